@@ -150,7 +150,7 @@ def startsWithCount : List Tok → Bool
   | _ => false
 
 /-- merging with the empty dimensionality changes nothing -/
-theorem dim_mul_nil (u : Dim) : Dim.mul u [] = u := by
+theorem dim_mul_nil_right (u : Dim) : Dim.mul u [] = u := by
   cases u <;> simp [Dim.mul, Dim.merge]
 
 /-- **scaling commutes with division**: `(k · s) / j` is the same amount of the same substance as
